@@ -580,7 +580,7 @@ Lemma sr_init_class : forall c a d, sr_init c a = Ok d -> d_cls d = class_code c
 Proof. intros c a d H. apply sr_init_iff in H. destruct H as [root [cu [_ [-> _]]]]. reflexivity. Qed.
 
 (* the part of an item that _SR.from_dataset carries over to the rebuilt root: no referenced
-   instance and no optional attribute besides template and continuity *)
+   instance and no optional attribute besides template, continuity and the name entry (root_key) *)
 Definition root_typed (it : item) : Prop :=
   i_ref it = None /\ forall kv, In kv (i_attrs it) -> root_key (fst kv) = true.
 
